@@ -89,6 +89,14 @@ class ExecS(Exec):
         if len(states) == 1:
             return states[0]
         mpc, mdec = mark
+        # facts and decisions shared by all states beyond the mark stay unguarded (keeps merged formulas small)
+        while all(len(s.pc) > mpc for s in states):
+            f0 = states[0].pc[mpc]
+            if not all(s.pc[mpc].get_id() == f0.get_id() for s in states[1:]):
+                break
+            if all(len(s.dec) > mdec and s.dec[mdec].get_id() == f0.get_id() for s in states):
+                mdec += 1
+            mpc += 1
         base = states[0].pc[:mpc]
         guards = []
         facts = []
@@ -126,9 +134,11 @@ class ExecS(Exec):
                 for g, v in zip(reversed(guards[:-1]), reversed(vals[:-1])):
                     acc = merge_val(g, v, acc, k)
             except Unsupported:
-                if k == "__current_exc__" or k == "__old_env__":
-                    continue
-                raise
+                if k.startswith("$") or k == "__yielded__":
+                    raise
+                # values of unrelated shapes on different paths: the variable is dropped after the join; a later
+                # use of it is reported as an unknown name (unsupported), never silently mis-modelled
+                continue
             out.env[k] = acc
             memo[mk_] = acc
         return out
